@@ -370,6 +370,21 @@ def handleEvalX (cd : Codec α) (ws : List String) : Option String := do
     | some y => some (outNums cd [y])
   | _ => none
 
+/-- `cachedevalx <variant> m x1 … xm <curve>`: a history of `m` queries on ONE function returned by
+`BezierCurve.CachedEvalX` / `CacheScalarFunc(b.EvalX)`.  The expected answer is the SPECIFICATION
+`xs.map EvalX` (`M3d.C17.cache_scalar_func_history`: the memo-table model `M3d.Memo.run` equals it for every history). -/
+def handleCachedEvalX (cd : Codec α) (ws : List String) : Option String := do
+  match ws with
+  | _variant :: rest =>
+    let (qs, rest) ← takeCounted cd rest
+    let (xs, ys, _) ← takeCurve cd rest
+    let outs := qs.map fun x =>
+      match curveEvalX (fun t => bezEval tbl xs t) (fun t => bezEval tbl ys t) x with
+      | none => "nan"
+      | some y => outNums cd [y]
+    some (String.intercalate " " outs)
+  | _ => none
+
 /-- `segbisect x <segs>`: `CurveInverseX` on a `SegmentCurve` (65 evaluations of one curve value). -/
 def handleSegBisect (cd : Codec α) (sqrt : α → α) (ws : List String) : Option String := do
   match ws with
@@ -575,6 +590,7 @@ def handleG (cd : Codec α) (sqrt : α → α) (trunc : α → Int) (exact : Boo
   | "joined" :: rest => handleJoined cd trunc rest
   | "bisect" :: rest => handleBisect cd rest
   | "evalx" :: rest => handleEvalX cd rest
+  | "cachedevalx" :: rest => handleCachedEvalX cd rest
   | "segbisect" :: rest => handleSegBisect cd sqrt rest
   | "curvemesh" :: rest => handleCurveMesh cd exact rest
   | "angle" :: rest => handleAngle cd trunc rest
